@@ -347,13 +347,15 @@ def asks (tr : Trace) (h : Nat) (t : Int) (ty : Nat) (qu : Bool) (items : List I
 
 /-- the `k`-th opportunity (window `[lo, hi]`): the first is a QU question that is always sent; a later one is a QM
 question that is sent unless the host asked or heard the same QM question at most `dupQ` earlier with known answers
-among its own -/
+among its own.  For a *heard* question "its own" are the instances the host has received by the end of the window: the code
+compares when its own question is due (RFC 6762 §7.3), which may be up to `dupQ` after the question was heard — a heard question
+may list an instance the host learns in between (its own service, looped back) -/
 def K3opp (cfg : Cfg) (tr : Trace) (h : Nat) (ty : Nat) (first : Bool) (lo hi : Int) : Bool :=
   if first then
     (sends tr).any fun sd => sd.h == h && sd.dst.isNone && lo ≤ sd.t && sd.t ≤ hi && asks tr h sd.t ty true sd.items
   else
     ((sends tr).any fun sd => sd.h == h && sd.dst.isNone && lo - cfg.dupQ ≤ sd.t && sd.t ≤ hi && asks tr h sd.t ty false sd.items)
-    || ((dlvs tr).any fun e => e.h == h && e.mc && lo - cfg.dupQ ≤ e.t && e.t ≤ hi && asks tr h e.t ty false e.items)
+    || ((dlvs tr).any fun e => e.h == h && e.mc && lo - cfg.dupQ ≤ e.t && e.t ≤ hi && asks tr h hi ty false e.items)
 
 def K3opps (cfg : Cfg) (tr : Trace) (endT : Int) (h ty : Nat) (t : Int) : List Int → Bool → Bool
   | [], _ => true
